@@ -7,7 +7,8 @@ contract change).
 Each case directory holds patch.diff (applies to /repo with `git apply`) and
 meta.json: {"properties": [...], "expect": "violation" | "pass"}. The patch is
 applied to /repo's working tree, `go build ./...` and the listed checks run,
-then the tree is restored with `git checkout -- .`. A "violation" case passes
+(on a scratch copy of /repo; evidence of such runs goes to work/scratch-evidence,
+never to evidence/). A "violation" case passes
 when at least one listed check exits 1 with a VIOLATION line; a "pass" case
 when every listed check exits 0. Results go to selftest/RESULTS.json.
 """
@@ -90,7 +91,10 @@ def main():
         finally:
             pass
     sh("rm -rf " + REPO)
-    json.dump(results, open(os.path.join(HERE, "selftest", "RESULTS.json"), "w"), indent=1)
+    # RESULTS.json records the last run of the WHOLE corpus; a run of selected
+    # cases reports on stdout only.
+    if not sys.argv[1:]:
+        json.dump(results, open(os.path.join(HERE, "selftest", "RESULTS.json"), "w"), indent=1)
     print("%d cases, %d bad" % (len(results), bad))
     return 1 if bad else 0
 
